@@ -36,6 +36,10 @@ pub enum KindSpec {
     Timer(i8),
     /// Generic over a harness-owned eventfd
     Fd { r: bool, w: bool, mode: u8 },
+    /// futures executor; causes are ready futures scheduled on it
+    Exec,
+    /// `Async` adapter over one end of a socketpair (no tasks: registration only)
+    Async,
 }
 
 impl KindSpec {
@@ -47,6 +51,8 @@ impl KindSpec {
             KindSpec::Fd { mode: 0, .. } => "FdLevel",
             KindSpec::Fd { mode: 1, .. } => "FdEdge",
             KindSpec::Fd { .. } => "FdOneShot",
+            KindSpec::Exec => "Exec",
+            KindSpec::Async => "Async",
         }
     }
 }
@@ -101,6 +107,12 @@ pub enum Op {
     CloneHandle(usize),
     /// fd: change interest/mode of the Generic, then update()
     Reconf(usize, bool, bool, u8),
+    /// fd registered through a Dispatcher: remove, into_source_inner, Generic::unwrap
+    Unwrap(usize),
+    /// insert a new Generic over the fd released by Unwrap / into_inner of a dead actor
+    ReinsertFd(usize),
+    /// adapt the stream released by into_inner again
+    Readapt(usize),
 }
 
 #[derive(Clone, Debug)]
@@ -125,6 +137,8 @@ pub struct Cfg {
     pub cb_ret_max: bool,
     pub top_set_deadline: Vec<i8>,
     pub top_clone: bool,
+    pub top_release: bool,
+    pub end_order_choice: bool,
     pub update_disabled: bool,
     pub cb_remove: bool,
     pub cb_disable: bool,
@@ -170,6 +184,8 @@ impl Cfg {
             cb_ret_max: false,
             top_set_deadline: vec![],
             top_clone: false,
+            top_release: false,
+            end_order_choice: false,
             update_disabled: false,
             cb_remove: true,
             cb_disable: true,
@@ -246,9 +262,18 @@ pub struct Rt {
     pub efd: Option<Rc<OwnedFd>>,
     pub timer: Option<Dispatcher<'static, Tracked<Timer>, Ctx>>,
     pub fdd: Option<Dispatcher<'static, Tracked<Generic<FdRef>>, Ctx>>,
+    pub sched: Option<calloop::futures::Scheduler<u8>>,
+    pub adapter: Option<calloop::io::Async<'static, std::os::unix::net::UnixStream>>,
+    pub peer: Option<std::os::unix::net::UnixStream>,
+    pub released: Option<std::os::unix::net::UnixStream>,
+    pub released_efd: Option<Rc<OwnedFd>>,
+    pub async_key: Option<u64>,
+    pub async_fd: Option<i32>,
+    pub destroyed_checked: bool,
 }
 
 pub enum Payload {
+    Exec(u8),
     Ping,
     Msg(u8),
     Closed,
@@ -282,6 +307,8 @@ pub struct Ctx {
     pub now_at_poll: u64,
     pub masks: Rc<epoll::Masks>,
     pub poisoned: bool,
+    pub pending_efd: Option<Rc<OwnedFd>>,
+    pub pending_stream: Option<std::os::unix::net::UnixStream>,
     pub ever_rearmed_in_batch: bool,
     /// largest timer deadline fired so far in the current dispatch
     pub last_fired_deadline: Option<i64>,
@@ -392,6 +419,14 @@ impl Ctx {
             efd: None,
             timer: None,
             fdd: None,
+            sched: None,
+            adapter: None,
+            peer: None,
+            released: None,
+            released_efd: None,
+            async_key: None,
+            async_fd: None,
+            destroyed_checked: false,
         };
         let guard = CbGuard(track.clone());
         let res: Result<RegistrationToken, String> = match spec {
@@ -442,8 +477,52 @@ impl Ctx {
                 rt.timer = Some(disp);
                 r
             }
+            KindSpec::Exec => {
+                let (exec, sched) = calloop::futures::executor::<u8>().expect("executor");
+                rt.sched = Some(sched);
+                self.h
+                    .insert_source(Tracked::new(exec, track.clone()), move |v, _, ctx: &mut Ctx| {
+                        let _g = &guard;
+                        ctx.on_cb(id, Payload::Exec(v));
+                    })
+                    .map_err(|e| format!("{e:?}"))
+            }
+            KindSpec::Async => {
+                drop(guard);
+                let (a, b) = match self.pending_stream.take() {
+                    Some(s) => (s, None),
+                    None => {
+                        let (a, b) = std::os::unix::net::UnixStream::pair().expect("socketpair");
+                        (a, Some(b))
+                    }
+                };
+                rt.peer = b;
+                let fd = a.as_raw_fd();
+                rt.async_fd = Some(fd);
+                let before: Vec<usize> = self.h.verif_stats().slots.iter().filter(|s| s.1).map(|s| s.0).collect();
+                match self.h.adapt_io(a) {
+                    Ok(ad) => {
+                        rt.adapter = Some(ad);
+                        let after = self.h.verif_stats();
+                        let newk: Vec<usize> = after.slots.iter().filter(|s| s.1 && !before.contains(&s.0)).map(|s| s.0).collect();
+                        rt.async_key = newk.first().map(|k| *k as u64);
+                        let nb = unsafe { libc::fcntl(fd, libc::F_GETFL) } & libc::O_NONBLOCK != 0;
+                        if !nb {
+                            self.violate(&["C17"], "adapter-not-nonblocking", &[], "adapt_io left the fd in blocking mode".into());
+                        }
+                        ma.alive = true;
+                        self.m.push(ma);
+                        self.rt.push(rt);
+                        return;
+                    }
+                    Err(e) => Err(format!("{e:?}")),
+                }
+            }
             KindSpec::Fd { r, w, mode } => {
-                let efd = Rc::new(epoll::eventfd());
+                let efd = match self.pending_efd.take() {
+                    Some(e) => e,
+                    None => Rc::new(epoll::eventfd()),
+                };
                 rt.efd = Some(efd.clone());
                 ma.os_armed = true;
                 // writable from the start: an edge is pending for write interest
@@ -483,7 +562,7 @@ impl Ctx {
             Ok(tok) => rt.token = Some(tok),
             Err(e) => {
                 self.violate(
-                    &["C15", "C08"],
+                    &["C15", "C08", "C16"],
                     "insert-failed",
                     &[("kind", spec.name().into())],
                     format!("insertion of {spec:?} failed without an injected fault: {e}"),
@@ -528,9 +607,19 @@ impl Ctx {
         for (i, a) in self.m.iter().enumerate() {
             if a.alive {
                 self.actor_ops(i, a, false, &mut v);
-            } else if c.top_stale && self.rt[i].token.is_some() {
-                for k in 0..4 {
-                    v.push(Op::Stale(i, k));
+            } else {
+                if c.top_stale && self.rt[i].token.is_some() {
+                    for k in 0..4 {
+                        v.push(Op::Stale(i, k));
+                    }
+                }
+                if c.top_release && self.m.len() < c.max_actors {
+                    if self.rt[i].released_efd.is_some() || self.rt[i].released.is_some() {
+                        v.push(Op::ReinsertFd(i));
+                    }
+                    if self.rt[i].released.is_some() {
+                        v.push(Op::Readapt(i));
+                    }
                 }
             }
         }
@@ -545,6 +634,13 @@ impl Ctx {
         } else {
             (c.top_remove, c.top_disable, c.top_disable, c.top_update, true, c.top_cause2)
         };
+        if a.spec == KindSpec::Async {
+            if !in_cb {
+                v.push(Op::Remove(i));
+                v.push(Op::Cause2(i));
+            }
+            return;
+        }
         if rm {
             v.push(Op::Remove(i));
         }
@@ -574,7 +670,12 @@ impl Ctx {
                         v.push(Op::Cause(i))
                     }
                 }
-                KindSpec::Timer(_) => {}
+                KindSpec::Exec => {
+                    if a.q.len() < 3 {
+                        v.push(Op::Cause(i))
+                    }
+                }
+                KindSpec::Timer(_) | KindSpec::Async => {}
             }
         }
         if cause2 {
@@ -594,8 +695,11 @@ impl Ctx {
                         v.push(Op::Cause2(i))
                     }
                 }
-                KindSpec::Timer(_) => {}
+                KindSpec::Timer(_) | KindSpec::Exec | KindSpec::Async => {}
             }
+        }
+        if !in_cb && c.top_release && self.rt[i].fdd.is_some() {
+            v.push(Op::Unwrap(i));
         }
         if !in_cb && c.top_fill {
             if let KindSpec::Fd { .. } = a.spec {
@@ -681,6 +785,7 @@ impl Ctx {
         let tr = self.rt[id].track.clone();
         let now = seqhooks::now_ns() as i64;
         let desc = match &p {
+            Payload::Exec(v) => format!("exec{v}"),
             Payload::Ping => "ping".to_string(),
             Payload::Msg(v) => format!("msg{v}"),
             Payload::Closed => "closed".to_string(),
@@ -719,6 +824,18 @@ impl Ctx {
         // --- C01: a real cause of exactly this payload
         let mut drain_fd = false;
         match p {
+            Payload::Exec(v) => {
+                let front = self.m[id].q.front().copied();
+                if front != Some(v) {
+                    self.violate(&["C01", "C10"], "callback-without-cause", &[("kind", kind.into())],
+                        format!("executor {id} delivered output {v} but the next scheduled task is {front:?}"));
+                    if let Some(pos) = self.m[id].q.iter().position(|&x| x == v) {
+                        self.m[id].q.remove(pos);
+                    }
+                } else {
+                    self.m[id].q.pop_front();
+                }
+            }
             Payload::Ping => {
                 if !self.m[id].ping {
                     self.violate(
@@ -1053,6 +1170,17 @@ impl Ctx {
                     self.insert(k);
                 }
             }
+            Op::Remove(j) if self.m[j].spec == KindSpec::Async => {
+                if let Some(ad) = self.rt[j].adapter.take() {
+                    let fd = self.rt[j].async_fd.unwrap();
+                    // keep the stream alive across the drop of the adapter to look at its flags
+                    let dupfd = unsafe { libc::dup(fd) };
+                    drop(ad);
+                    self.check_restored(j, dupfd);
+                    unsafe { libc::close(dupfd) };
+                }
+                self.model_removed(j, 1, false);
+            }
             Op::Remove(j) => {
                 let tok = self.rt[j].token.expect("token");
                 self.h.remove(tok);
@@ -1188,7 +1316,18 @@ impl Ctx {
                             a.edge_pending = true;
                         }
                     }
-                    KindSpec::Timer(_) => {}
+                    KindSpec::Exec => {
+                        let v = self.m[j].next_msg;
+                        self.m[j].next_msg = v.wrapping_add(1);
+                        let r = self.rt[j].sched.as_ref().unwrap().schedule(async move { v });
+                        if r.is_ok() {
+                            self.m[j].q.push_back(v);
+                            self.m[j].sig_at = Some(self.rt[j].track.pe_reg_seq.get());
+                        } else {
+                            self.violate(&["C10"], "schedule-failed", &[], format!("schedule() on live executor {j} failed"));
+                        }
+                    }
+                    KindSpec::Timer(_) | KindSpec::Async => {}
                 }
             }
             Op::Cause2(j) => {
@@ -1218,7 +1357,56 @@ impl Ctx {
                             a.edge_pending = true;
                         }
                     }
-                    KindSpec::Timer(_) => {}
+                    KindSpec::Async => {
+                        // into_inner: the adapter is gone, the stream is handed back
+                        if let Some(ad) = self.rt[j].adapter.take() {
+                            let s = ad.into_inner();
+                            self.check_restored(j, s.as_raw_fd());
+                            self.rt[j].released = Some(s);
+                        }
+                        self.model_removed(j, 1, false);
+                    }
+                    KindSpec::Timer(_) | KindSpec::Exec => {}
+                }
+            }
+            Op::Unwrap(j) => {
+                let tok = self.rt[j].token.expect("token");
+                self.h.remove(tok);
+                self.model_removed(j, 1, false);
+                if let Some(d) = self.rt[j].fdd.take() {
+                    match catch_unwind(AssertUnwindSafe(move || d.into_source_inner())) {
+                        Ok(src) => {
+                            // Tracked has a Drop impl: take the Generic out by swapping in a scratch one
+                            let mut src = src;
+                            let scratch = Generic::new(FdRef(Rc::new(epoll::eventfd())), Interest::READ, Mode::Level);
+                            let g = std::mem::replace(&mut src.inner, scratch);
+                            let fdref = g.unwrap();
+                            self.rt[j].released_efd = Some(fdref.0);
+                        }
+                        Err(_) => self.violate(&["C06"], "not-released", &[("kind", "FdLevel".into()), ("removed_by", "1".into())],
+                            format!("into_source_inner of removed fd actor {j} failed")),
+                    }
+                }
+            }
+            Op::ReinsertFd(j) => {
+                if let Some(e) = self.rt[j].released_efd.take() {
+                    self.pending_efd = Some(e);
+                    let fdc = self.m[j].fdc;
+                    self.insert(KindSpec::Fd { r: true, w: false, mode: 0 });
+                    // the new source watches the same kernel object: it inherits its state
+                    if let Some(a) = self.m.last_mut() {
+                        a.fdc = fdc;
+                        a.edge_pending = fdc > 0;
+                    }
+                } else if let Some(s) = self.rt[j].released.take() {
+                    // a plain Generic over the stream that an adapter gave back
+                    self.insert_stream_generic(s);
+                }
+            }
+            Op::Readapt(j) => {
+                if let Some(s) = self.rt[j].released.take() {
+                    self.pending_stream = Some(s);
+                    self.insert(KindSpec::Async);
                 }
             }
             Op::CloneHandle(j) => match self.m[j].spec {
@@ -1275,6 +1463,26 @@ impl Ctx {
         }
     }
 
+    /// C17 clause: dropping the adapter / into_inner restores the blocking mode the fd had before
+    fn check_restored(&mut self, j: usize, fd: i32) {
+        self.clause("blocking-mode-restored");
+        let nb = unsafe { libc::fcntl(fd, libc::F_GETFL) } & libc::O_NONBLOCK != 0;
+        if nb {
+            self.violate(&["C17"], "blocking-mode-not-restored", &[], format!("adapter {j} was released but its fd is still non-blocking (it was blocking before adapt_io)"));
+        }
+    }
+
+    /// A plain level-triggered Generic over a stream an adapter gave back: must be insertable.
+    fn insert_stream_generic(&mut self, s: std::os::unix::net::UnixStream) {
+        self.clause("reinsert-released-fd");
+        let r = self.h.insert_source(Generic::new(s, Interest::READ, Mode::Level), |_, _, _: &mut Ctx| Ok(PostAction::Continue));
+        match r {
+            Ok(tok) => self.h.remove(tok),
+            Err(e) => self.violate(&["C16"], "released-fd-not-reinsertable", &[("via", "generic".into())],
+                format!("inserting a Generic over the fd an Async adapter released failed: {:?}", e.error)),
+        }
+    }
+
     fn stale_op(&mut self, j: usize, k: u8) {
         self.clause("stale-token");
         let tok = self.rt[j].token.expect("token");
@@ -1323,8 +1531,8 @@ impl Ctx {
             let tr = &self.rt[i].track;
             match a.spec {
                 KindSpec::Ping => a.ping || a.close_at.is_some(),
-                KindSpec::Chan => a.sig_at.map(|at| tr.pe_reg_seq.get() <= at).unwrap_or(false),
-                KindSpec::Timer(_) => false,
+                KindSpec::Chan | KindSpec::Exec => a.sig_at.map(|at| tr.pe_reg_seq.get() <= at).unwrap_or(false),
+                KindSpec::Timer(_) | KindSpec::Async => false,
                 KindSpec::Fd { r, w, mode } => {
                     let ready = (r && a.fdc > 0) || (w && a.fdc < 2);
                     match mode {
@@ -1359,6 +1567,8 @@ impl Ctx {
             a.owed = match a.spec {
                 KindSpec::Ping => a.ping,
                 KindSpec::Chan => !a.q.is_empty() || (a.senders == 0 && !a.closed_delivered),
+                KindSpec::Exec => !a.q.is_empty(),
+                KindSpec::Async => false,
                 KindSpec::Timer(_) => false, // decided after the wait (needs the poll time)
                 KindSpec::Fd { r, w, mode } => {
                     let ready = (r && a.fdc > 0) || (w && a.fdc < 2);
@@ -1459,6 +1669,7 @@ impl Ctx {
                     KindSpec::Timer(_) => vec!["C02", "C05"],
                     KindSpec::Ping => vec!["C02", "C03"],
                     KindSpec::Chan => vec!["C02", "C04"],
+                    KindSpec::Exec => vec!["C02", "C10"],
                     _ => vec!["C02"],
                 };
                 let msg = format!(
@@ -1488,6 +1699,16 @@ impl Ctx {
             self.clause("release");
             for i in 0..self.m.len() {
                 let a = self.m[i].clone();
+                if a.spec == KindSpec::Async {
+                    continue;
+                }
+                if a.spec == KindSpec::Exec && !a.alive && !self.rt[i].destroyed_checked && self.rt[i].track.src_dropped.get() == 1 {
+                    self.rt[i].destroyed_checked = true;
+                    self.clause("executor-destroyed");
+                    if self.rt[i].sched.as_ref().unwrap().schedule(async { 0u8 }).is_ok() {
+                        self.violate(&["C10"], "schedule-after-destroy", &[], format!("schedule() succeeded after executor {i} was removed and dropped"));
+                    }
+                }
                 let tr = self.rt[i].track.clone();
                 let (sd, cd) = (tr.src_dropped.get(), tr.cb_dropped.get());
                 let kind = a.spec.name();
@@ -1530,7 +1751,7 @@ impl Ctx {
                 format!("{occupied} occupied slots but the model has {alive} inserted sources"));
         }
         for (i, a) in self.m.iter().enumerate() {
-            if a.alive {
+            if a.alive && a.spec != KindSpec::Async {
                 let key = calloop::verif::registration_key(self.rt[i].token.as_ref().unwrap());
                 if !stats.slots.iter().any(|s| s.0 == key && s.1) {
                     self.violations.push(Violation {
@@ -1570,11 +1791,18 @@ impl Ctx {
             if !(a.alive && a.enabled) {
                 continue;
             }
+            if a.spec == KindSpec::Async {
+                if let (Some(k), Some(fd)) = (self.rt[i].async_key, self.rt[i].async_fd) {
+                    expected.push((k, self.masks.expected(Interest::EMPTY, Mode::OneShot), Some(fd), i));
+                }
+                continue;
+            }
             let key = calloop::verif::registration_key(self.rt[i].token.as_ref().unwrap()) as u64;
             match a.spec {
-                KindSpec::Ping | KindSpec::Chan => {
+                KindSpec::Ping | KindSpec::Chan | KindSpec::Exec => {
                     expected.push((key, self.masks.expected(Interest::READ, Mode::Level), None, i))
                 }
+                KindSpec::Async => {}
                 KindSpec::Fd { r, w, mode } => {
                     let fd = self.rt[i].efd.as_ref().map(|f| f.as_raw_fd());
                     let full = self.masks.expected(Interest { readable: r, writable: w }, mode_of(mode));
@@ -1619,7 +1847,7 @@ impl Ctx {
         for (p, e) in table.iter().enumerate() {
             if !used[p] {
                 let owner = self.m.iter().enumerate().find(|(i, _)| {
-                    self.rt[*i].efd.as_ref().map(|f| f.as_raw_fd()) == Some(e.fd)
+                    self.rt[*i].efd.as_ref().map(|f| f.as_raw_fd()) == Some(e.fd) || self.rt[*i].async_fd == Some(e.fd)
                 });
                 let kind = owner.map(|(_, a)| a.spec.name()).unwrap_or("internal-fd");
                 self.violate(&["C16"], "epoll-stale", &[("kind", kind.into())],
@@ -1672,6 +1900,8 @@ fn p_kind(desc: &str) -> Payload {
         Payload::Timer(seqhooks::base())
     } else if desc.starts_with("msg") {
         Payload::Msg(0)
+    } else if desc.starts_with("exec") {
+        Payload::Exec(0)
     } else if desc.starts_with("closed") {
         Payload::Closed
     } else {
@@ -1725,6 +1955,8 @@ pub fn run_history(cfg: &Rc<Cfg>, verbose: bool) -> (Outcome, Option<Vec<String>
         now_at_poll: 0,
         masks: masks(),
         poisoned: false,
+        pending_efd: None,
+        pending_stream: None,
         ever_rearmed_in_batch: false,
         last_fired_deadline: None,
         dispatch_timeout: None,
@@ -1771,13 +2003,36 @@ pub fn run_history(cfg: &Rc<Cfg>, verbose: bool) -> (Outcome, Option<Vec<String>
     }
     // drop the loop and every handle: everything still inserted is released exactly once
     let fp = if ctx.poisoned { None } else { fp_at_end };
+    let end_order = if cfg.end_order_choice && !ctx.poisoned { explore::choose(2, Kind::Free) } else { 0 };
+    if end_order == 1 {
+        ctx.decoded.push("end: sources and handles dropped before the loop".into());
+    }
     let Ctx {
-        h, m, rt, mut violations, decoded, obs, transitions, callbacks, deviated, clauses, verbose, depth_used, poisoned, ..
+        h, m, mut rt, mut violations, decoded, obs, transitions, callbacks, deviated, clauses, verbose, depth_used, poisoned, ..
     } = ctx;
+    if end_order == 1 {
+        // everything the harness holds goes first, the loop last
+        for r in rt.iter_mut() {
+            r.adapter.take();
+            r.timer.take();
+            r.fdd.take();
+            r.pings.clear();
+            r.senders.clear();
+            r.sched.take();
+            r.released.take();
+        }
+    }
+    // an Async adapter is itself a handle to the loop (it keeps the loop's inner state alive)
+    for r in rt.iter_mut() {
+        r.adapter.take();
+    }
     drop(h);
     drop(el);
     if cfg.check_release && !poisoned {
         for (i, r) in rt.iter().enumerate() {
+            if m[i].spec == KindSpec::Async {
+                continue;
+            }
             let held = r.timer.is_some() || r.fdd.is_some();
             let (sd, cd) = (r.track.src_dropped.get(), r.track.cb_dropped.get());
             let expect = if held && m[i].alive { 0 } else { 1 };
